@@ -508,6 +508,10 @@ def reader_entry_rule(repo: Repo, rep, P: str):
     for cname, mod, meth in nested:
         ci = repo.cls(cname, module=mod)
         fn = repo.own_method(ci, meth)
+        from .. import inline
+        helpers = {c.func.attr for c in walk_no_nested(fn) if isinstance(c, ast.Call) and isinstance(c.func, ast.Attribute)
+                   and norm(c.func.value) == "self" and c.func.attr in ci.methods and c.func.attr.startswith(("load_", "_"))}
+        fn = inline.flatten(repo, ci, fn, also=helpers)
         calls = [norm(c.func) for c in walk_no_nested(fn) if isinstance(c, ast.Call)]
         rep.func(f"{mod}.{cname}.{meth}")
         if "read_sunvox_file" in calls:
